@@ -137,19 +137,26 @@ def _check_cells(c, name, mask, cells, radvars, rad_of_axis, axes, assume, run_r
         r = mismatch(vals, False)
         if r is not None:
             return True, r
-        # the real-arithmetic witness may sit where float rounding of d/r decides: look for a float-exact witness of the
-        # same violation on a dyadic lattice of radii (confirmation step only; the verdict was the solver's)
-        lat = [unit * j / 2 for j in range(1, 13)]
-        names = list(radvars)
-        for combo in itertools.product(lat, repeat=len(names)):
-            r = mismatch(dict(zip(names, combo)), True)
+        # the real-arithmetic witness may sit on the surface, where float rounding of d/r decides: look for a float-exact
+        # witness of the same violation (confirmation step only; the verdict was the solver's): a cell with a single
+        # non-zero offset d_a and r_a = |d_a| has sum((d/r)^2) = 1 exactly in floats as well
+        for idx, d in cells:
+            nzc = [i for i, dd in enumerate(d) if dd != 0]
+            if len(nzc) != 1:
+                continue
+            cand = {n: float(unit) for n in radvars}
+            cand[rad_of_axis[axes[nzc[0]]]] = float(abs(d[nzc[0]]))
+            r = mismatch(cand, True)
             if r is not None:
-                r["note"] = "float-exact witness found on the dyadic radius lattice next to the solver's real-arithmetic witness"
+                r["note"] = "float-exact surface witness (cell on a principal axis, radius = its offset) confirming the solver's real-arithmetic witness"
                 r["solver_witness"] = vals
                 return True, r
-        return False, dict(radii=vals, note="mask equals the oracle at the witness and on the radius lattice")
+        return False, dict(radii=vals, note="mask equals the oracle at the witness and at the float-exact surface candidates")
 
     for idx, d in cells:
+        if any(v["key"] == f"{keybase}:inclusion" for v in c.violations):
+            c.notes.append(f"{keybase}: first reproduced violation recorded, remaining cells of this object skipped")
+            break
         got = mask[idx]
         # multiplied-out inclusion: sum_a d_a^2 * prod_{b != a} r_b^2 < prod_a r_a^2  (r > 0)
         rs = [radvars[rad_of_axis[a]] for a in axes]
@@ -183,6 +190,8 @@ def run_case(c, case):
         for pat in case["patterns"]:
             # placement radii (concrete, only decide the bounding box): between 1 and 2.5 cells
             r0 = {n: float(unit * rng.integers(4, 11) / 4) for n in ("radius", "radius_x", "radius_y", "radius_z")}
+            if pat == case["patterns"][0]:
+                r0 = {n: 1.5 * unit for n in r0}  # an odd (3-cell) box: has cells on the principal axes (float-exact surface witnesses)
             kw = {n: r0[n] for n, p in zip(("radius_x", "radius_y", "radius_z"), pat) if p}
             obj = fdtdx.Sphere(name="shape", radius=r0["radius"], materials=MATS, material_name="b", **kw)
             o = _place(grid, obj, lambda vol: _pos(obj, vol, case["where"]))
@@ -230,7 +239,7 @@ def run_case(c, case):
                     twin = c.witness("twin: some cell is masked for one radius and not for another", z3.And(sym[0], z3.Not(z3.substitute(sym[0], *[(v, v / 8) for v in radvars.values()]))), assume)
     else:
         for axis in (0, 1, 2):
-            r0 = float(unit * rng.integers(4, 11) / 4)
+            r0 = float(unit * rng.integers(4, 11) / 4) if axis else 1.5 * unit  # axis 0: odd (3-cell) cross-section
             tr_axes = tuple(a for a in range(3) if a != axis)
             obj = fdtdx.Cylinder(name="shape", radius=r0, axis=axis, materials=MATS, material_name="b")
             o = _place(grid, obj, lambda vol: _pos(obj, vol, case["where"], axes=tr_axes) + [obj.extend_to(None, axis=axis, direction="+"), obj.extend_to(None, axis=axis, direction="-")])
